@@ -105,6 +105,46 @@ def build_modules():
     # bodies of different sizes in one module, in rising, falling and mixed order: every body's size field counts its own bytes
     for nm, sizes in (("rising", [1, 5, 20, 70]), ("falling", [70, 20, 5, 1]), ("mixed", [3, 40, 2, 66, 1, 9]), ("across128", [70, 30, 64, 1])):
         out.append((f"sizes:{nm}", module(len(sizes), lambda k: f"f{k}", lambda k, sizes=sizes: sizes[k], False), {"names": [f"f{k}" for k in range(len(sizes))]}))
+    # the LAST instruction of a body sweeps its immediate over every final byte value (there is no trailing return): the `end` that closes
+    # the body follows the immediate and must not be confused with it or merged into it
+    def tail_module(kind, v):
+        m = W.Module()
+        res = [] if kind == "set" else [W.ValueType.i32]
+        t = m.AddFunctionType(W.FunctionType([W.ValueType.i32], res))
+        nf = v + 1 if kind == "call" else 1
+        for k in range(nf):
+            m.AddFunction(t)
+            m.AddExport(W.Export(k, f"f{k}"))
+            c = W.Code()
+            if k > 0:
+                c.AddInstruction(W.Instruction(W.opcodes["local.get"], (0,)))
+            elif kind == "const":
+                c.AddInstruction(W.Instruction(W.opcodes["i32.const"], (v,)))
+            elif kind == "call":
+                c.AddInstruction(W.Instruction(W.opcodes["local.get"], (0,)))
+                c.AddInstruction(W.Instruction(W.opcodes["call"], (v,)))
+            else:
+                for _ in range(v):
+                    c.AddLocal(W.Local(W.ValueType.i32))
+                if kind == "set":
+                    c.AddInstruction(W.Instruction(W.opcodes["local.get"], (0,)))
+                c.AddInstruction(W.Instruction(W.opcodes["local." + kind], (v,)))
+            m.AddCode(c)
+        m.AddTable(W.Table(0))
+        buf = io.BytesIO()
+        m.WriteTo(buf)
+        return buf.getvalue(), [f"f{k}" for k in range(nf)]
+    for v in list(range(-64, 64)) + [143, 271, 1935, 2063, 12815, -113, 16383, 16384]:
+        b_, names = tail_module("const", v)
+        out.append((f"tail:const:{v}", b_, {"names": names}))
+    for kind in ("set", "get"):
+        for v in list(range(1, 40)) + [127, 128, 143]:
+            b_, names = tail_module(kind, v)
+            out.append((f"tail:{kind}:{v}", b_, {"names": names}))
+    if "call" in W.opcodes:
+        for v in (1, 5, 11, 14, 15, 16, 143):
+            b_, names = tail_module("call", v)
+            out.append((f"tail:call:{v}", b_, {"names": names}))
     return out
 
 
@@ -144,6 +184,14 @@ def run(ctx, args):
     for i, b, exp in mods:
         r = recs[i]
         kind = i.split(":")[0]
+        if r["status"] == "unmodelled":
+            # an opcode outside WasmBinary's subset: wasmtime alone decides
+            wt = wasmlib.wasmtime_check(b)
+            if wt["valid"]:
+                counts["module-ok-by-wasmtime:" + kind] = counts.get("module-ok-by-wasmtime:" + kind, 0) + 1
+            else:
+                ctx.violation(f"module:{kind}:{wt['why'][:60]}", f"module {i} written by the writer API is rejected by wasmtime: {wt['why']}", {"module": i, "bytes_hex": b[:80].hex(" ")})
+            continue
         if r["status"] != "valid":
             ctx.violation(f"module:{kind}:{r['why'][:60]}", f"module {i} written by the writer API does not read back: {r['status']}: {r['why']}", {"module": i, "bytes_hex": b[:80].hex(" ")})
             continue
